@@ -79,6 +79,11 @@ def U_OPS() -> Dict[str, Callable]:
         "getitem_bounded": lambda S, a: S[tuple(slice(0, max(1, s - 1)) for s in S.shape)],
         "setitem_stride_zero": lambda S, a: _set(S, tuple([slice(None, None, 2)] + [slice(None)] * (a["N"] - 1)), 0),
         "setitem_subs_scalar": lambda S, a: _set(S, a["allsubs"][::3].copy(), 7.0),
+        # one batch that deletes some stored entries (value 0), changes others and adds new ones
+        "setitem_subs_mixed": lambda S, a: _set(S, a["allsubs"].copy(),
+                                                np.array([[0.0, 7.0, 0.0, -5.0][k % 4] for k in range(len(a["allsubs"]))])[:, None]),
+        "setitem_subs_mixed_rev": lambda S, a: _set(S, a["allsubs"][::-1].copy(),
+                                                    np.array([[3.0, 0.0][k % 2] for k in range(len(a["allsubs"]))])[:, None]),
         # a nonzero scalar assigned to a region that contains stored entries (they are replaced in place) and empty cells
         "setitem_region_scalar": lambda S, a: _set(S, tuple(slice(0, max(1, s - 1)) for s in S.shape), 9.0),
         "setitem_stride_scalar": lambda S, a: _set(S, tuple([slice(None)] * (a["N"] - 1) + [slice(None, None, 2)]), -4.0),
@@ -187,7 +192,7 @@ STRICT = ["add", "sub", "mul", "and", "or", "xor", "eq", "ne", "lt", "le", "gt",
           "eq_scalar", "ne_scalar", "lt_scalar", "ge_scalar0", "gt_scalar_neg", "and_scalar", "eq_dense",
           "ne_dense", "le_dense", "gt_dense", "and_dense", "mul_dense_zeros", "setitem_region", "copy",
           "permute_rev", "reshape_flat", "squeeze", "ones", "neg", "pos",
-          "mul_scalar_zero", "rmul_scalar_zero", "mul_ktensor_zero_row", "scale_vec_zero", "scale_dense_zero", "div"]
+          "setitem_subs_mixed", "setitem_subs_mixed_rev", "mul_scalar_zero", "rmul_scalar_zero", "mul_ktensor_zero_row", "scale_vec_zero", "scale_dense_zero", "div"]
 
 
 def applicable(op: str, shape) -> bool:
